@@ -295,8 +295,8 @@ def run(ctx):
     if (first_div is not None or not res.ok) and mon_hits == 0:
         # the correspondence or a proof broke: enlarged failing-input search with the implementation-side monitors
         ctx.log("correspondence/proof broken: enlarged search on the real code")
-        for fam, elim in ((0, False), (0, True), (2, False), (2, True)):
-            s = run_batch(ctx, lin, impl, gen_cases(ctx, 3000, fam, elim, "s%d%d_" % (fam, 1 if elim else 0)), "search_f%d_e%d" % (fam, 1 if elim else 0), None)
+        for fam, elim, cnt in ((0, False, 1200), (0, True, 1200), (2, False, 400), (2, True, 400)):
+            s = run_batch(ctx, lin, impl, gen_cases(ctx, cnt, fam, elim, "s%d%d_" % (fam, 1 if elim else 0)), "search_f%d_e%d" % (fam, 1 if elim else 0), None)
             mon_hits += s["monitor_hits"]
             if mon_hits:
                 break
